@@ -304,6 +304,10 @@ def flatten_c(T, v, depth=0, limit=64):
             a0 = vt.strip(v['args'][0])
             if isinstance(a0, dict) and a0.get('k') == 'lit':
                 fname = f + '(' + repr(str(a0.get('v'))) + ')'
+                # a literal replacement is part of the operation's identity: `replace(P → R)`
+                a1 = vt.strip(v['args'][1]) if f == 'replace' and len(v['args']) == 2 else None
+                if isinstance(a1, dict) and a1.get('k') == 'lit':
+                    fname = f + '(' + repr(str(a0.get('v'))) + ' → ' + repr(str(a1.get('v'))) + ')'
         return [(c2, [(('atom', x[1], x[2] + (fname,)) if x[0] == 'atom' else (('lit*', x[1], f) if x[0] == 'lit' else x)) for x in sq]) for c2, sq in sub]
     if kk in ('elem', 'field'):
         rp = resolve_proj(v)
